@@ -105,7 +105,7 @@ type c01Trace struct {
 }
 
 func checkC01(c *Ctx) {
-	c.Rep.Rule = "conformant sessions (open, every request kind at both ends and the middle of every line and at two positions outside the text, document and workspace requests, an edit, a completion, a save, a hover, close) are run on fresh real servers over generated workspaces: (a) Hostile.tla's strings over 27 lexer-relevant byte classes (all of length <= 3, a seeded sample of length 4 quick / all thorough), (b) Hostile.tla's annotation blocks in which two aliases and a class refer to each other through every wrapper, used in seven ways, every second one with its declarations in another file than its uses, (c) enum blocks and over-long error lists, (d) a seeded sample of LuaGrammar.tla's chunks and single-token mutants, (e) position sweeps over every line:character of small buffers, (f) ClassGraph.tla's class hierarchies that contain an inheritance cycle, declared in one, two or three files, with a variable of every class (a seeded third quick / all thorough). Every session is recorded as an event trace (send/reply/notify/push/tick/crash/fault) and LivenessTrace.tla replays the traces through Liveness.tla, TLC evaluating Good (alive, no swallowed internal fault, no request overdue) after every event; all other families' replays run under the same crash/hang monitor; distinct = distinct workspaces"
+	c.Rep.Rule = "conformant sessions (open, every request kind at both ends and the middle of every line and at two positions outside the text, document and workspace requests, an edit, a completion, a save, a hover, close) are run on fresh real servers over generated workspaces: (a) Hostile.tla's strings over 27 lexer-relevant byte classes (all of length <= 3, a seeded sample of length 4 quick / all thorough), (b) Hostile.tla's annotation blocks in which two aliases and a class refer to each other through every wrapper, used in seven ways, every second one with its declarations in another file than its uses, (c) enum blocks and over-long error lists, (d) a seeded sample of LuaGrammar.tla's chunks and single-token mutants, (e) position sweeps over every line:character of small buffers, (g) hand-written files under a luahelper.json that switches the opt-in analyses 22-28 on, (f) ClassGraph.tla's class hierarchies that contain an inheritance cycle, declared in one, two or three files, with a variable of every class (a seeded third quick / all thorough). Every session is recorded as an event trace (send/reply/notify/push/tick/crash/fault) and LivenessTrace.tla replays the traces through Liveness.tla, TLC evaluating Good (alive, no swallowed internal fault, no request overdue) after every event; all other families' replays run under the same crash/hang monitor; distinct = distinct workspaces"
 	c.Rep.Assumptions = []string{
 		"the quantifier over bytes* is met only through these structured generators; there is no coverage-guided byte fuzzing in this family",
 		"a request is overdue after 10 s without an answer (three orders of magnitude above the measured norm); the child is then killed",
@@ -258,6 +258,12 @@ func checkC01(c *Ctx) {
 		"alias_self":     "---@alias Q Q\n---@type Q\nlocal q = {}\nprint(q.x)\n",
 		"generic_loop":   "---@generic T : T\n---@param a T\n---@return T\nlocal function id(a) return a end\nprint(id(id))\n",
 		"overload_loop":  "---@overload fun(a: fun(b: fun(c: fun()))): fun(): fun()\nlocal function o(a) return a end\nprint(o(o)(o))\n",
+		"long_ident":     "function " + strings.Repeat("handler_a", 16) + "() end\nlocal " + strings.Repeat("ab", 70) + " = 1\nprint(" + strings.Repeat("ab", 70) + ")\n",
+		"long_member":    "local t = {}\nfunction t." + strings.Repeat("member_a", 17) + "() end\nt." + strings.Repeat("xa", 80) + " = 1\nreturn t\n",
+		"annot_quote1":   "---@param '\nlocal function f(m) end\nprint(f)\n",
+		"annot_quote2":   "---@param m string | \"\nlocal function f(m) end\nprint(f)\n",
+		"annot_quote3":   "---@alias Mode '\"r\"' | '\n---@type Mode\nlocal m = nil\nprint(m)\n",
+		"annot_quote4":   "---@type \"\nlocal q = nil\n---@field a '\nprint(q)\n",
 		"only_bom":       "\xef\xbb\xbf",
 		"bom_code":       "\xef\xbb\xbflocal a = 1\nprint(a)\n",
 		"shebang":        "#!/usr/bin/lua\nlocal a = 1\nprint(a)\n",
@@ -287,7 +293,7 @@ func checkC01(c *Ctx) {
 	{
 		var chunks [][]string
 		st, err := c.TLC(tlc.Run{Module: "LuaGrammar", Workers: 8, Timeout: 30 * time.Minute,
-			Cfg: "CONSTANTS\n  MaxTok = 5\n  MaxStack = 14\n  DevParen = FALSE\nINIT Init\nNEXT Next\nINVARIANTS Emit\nCHECK_DEADLOCK FALSE\n"},
+			Cfg: "CONSTANTS\n  MaxTok = 5\n  MaxStack = 14\n  Focus = \"chunk\"\n  DevParen = FALSE\nINIT Init\nNEXT Next\nINVARIANTS Emit\nCHECK_DEADLOCK FALSE\n"},
 			func(j json.RawMessage) {
 				var o struct {
 					Toks []string `json:"toks"`
@@ -338,6 +344,32 @@ func checkC01(c *Ctx) {
 		id++
 		raw, _ := json.Marshal(map[string]interface{}{"fam": "sweep", "text": text})
 		add(fmt.Sprintf("position sweep over %q", text), raw, c01Session(id, map[string]string{fmt.Sprintf("s%d.lua", si): text}, nil, fmt.Sprintf("s%d.lua", si), text, pos))
+	}
+	// ---- (g) the opt-in analyses (types 22-28: class fields, const assignment, call parameter types, return counts,
+	// assignment and operator types, uncalled local functions) switched on through luahelper.json ----
+	optin := map[string]string{
+		"calls_plain":   "local function add(a, b) return a + b end\nadd(1, 2)\nadd(3, 4)\nprint(add(5, 6), add)\n",
+		"calls_typed":   "---@param a number\n---@param b string\n---@return number\nlocal function f(a, b) return a end\nf(1, \"x\")\nf(\"x\", 1)\nf(1)\nf(1, 2, 3)\nlocal r = f(nil, nil)\nprint(r)\n",
+		"calls_method":  "local t = {}\n---@param n number\nfunction t:m(n) return n end\nfunction t.s(a, b) return a, b end\nt:m(1)\nt:m(\"s\")\nt.s(t, 1)\nt.s()\nprint(t:m(2))\n",
+		"class_fields":  "---@class P\n---@field x number\n---@field name string\n\n---@type P\nlocal p = { x = 1, y = 2, name = 3 }\np.x = \"s\"\np.z = 1\n---@type P\nlocal q = {}\nq.name = p.x\nprint(p, q)\n",
+		"const_assign":  "local c <const> = 1\nc = 2\nlocal d <close> = nil\nd = c\n---@type number\nlocal n = 1\nn = \"s\"\nn = {}\nn = nil\nprint(c, d, n)\n",
+		"returns":       "---@return number, string\nlocal function r2() return 1 end\nlocal function r0() return end\nlocal function never() return 1, 2, 3 end\nlocal a, b, c = r2()\nlocal d = r0()\nprint(a, b, c, d)\n",
+		"binops":        "---@type number\nlocal n = 1\n---@type string\nlocal s = \"a\"\n---@type table\nlocal t = {}\nprint(n + s, s .. t, t < n, -s, #n, n == s, n and t, not t)\n",
+		"cross_calls":   "local m = require(\"fx2\")\nm.go(1, 2)\nm.go()\nglobalfn(1)\nglobalfn(\"a\", \"b\")\n",
+	}
+	optCfg := `{"ShowWarnFlag":1,"OpenErrorTypes":[22,23,24,25,26,27,28]}`
+	var okeys2 []string
+	for k := range optin {
+		okeys2 = append(okeys2, k)
+	}
+	sort.Strings(okeys2)
+	for _, k := range okeys2 {
+		text := optin[k]
+		id++
+		files := map[string]string{"fx.lua": text, "luahelper.json": optCfg,
+			"fx2.lua": "local M = {}\n---@param a number\nfunction M.go(a, b) return a end\n---@param s string\nfunction globalfn(s) return s end\nreturn M\n"}
+		raw, _ := json.Marshal(map[string]interface{}{"fam": "optin", "name": k})
+		add("opt-in analyses on "+k+"\n"+text, raw, c01Session(id, files, nil, "fx.lua", text, c01Positions(text, 10)))
 	}
 	// ---- (f) class hierarchies with an inheritance cycle (ClassGraph.tla, Level "cycles"), in every file layout ----
 	{
